@@ -98,12 +98,11 @@ static jwt_value_error_t jwt_get_json(json_t *which, jwt_value_t *jval)
 
 static jwt_value_error_t jwt_obj_check(json_t *which, jwt_value_t *jval)
 {
-	if (json_object_get(which, jval->name)) {
-		if (jval->replace)
-			json_object_del(which, jval->name);
-		else
-			return jval->error = JWT_VALUE_ERR_EXIST;
-	}
+	/* With replace, the old value is overwritten by json_object_set_new()
+	 * once the new one exists. Deleting it here would lose it when the
+	 * new value is refused (e.g. a string that is not valid UTF-8). */
+	if (json_object_get(which, jval->name) && !jval->replace)
+		return jval->error = JWT_VALUE_ERR_EXIST;
 
 	return JWT_VALUE_ERR_NONE;
 }
